@@ -56,11 +56,20 @@ func value(f Field, correct string) *string {
 			return forge.S(v)
 		}
 		return forge.S(correct + "x")
+	case "alt":
+		// another identifier of this very deployment: plausible, but not the value this field must carry
+		if v, ok := alts[f.Kind]; ok && v != correct {
+			return forge.S(v)
+		}
+		return forge.S(spkit.SPSLO + "/alt")
 	case "empty":
 		return forge.S("")
 	}
 	return nil
 }
+
+var alts = map[string]string{"sp-metadata": spkit.SPMetadata, "sp-entity": spkit.SPEntity, "sp-acs": spkit.SPACS, "sp-slo": spkit.SPSLO, "idp-sso": spkit.IDPSSO, "idp-entity": spkit.IDPEntity}
+var altKinds = []string{"sp-metadata", "sp-entity", "sp-acs", "sp-slo", "idp-sso", "idp-entity"}
 
 func receivedAt(c Case) string {
 	switch c.ReceivedAt {
@@ -311,13 +320,16 @@ func check(c Case) pbt.Result {
 var nearKinds = xgen.NearMissKeys
 
 func genField(t *rapid.T, label string, allowAbsent bool) Field {
-	classes := []string{"correct", "correct", "correct", "wrong", "near", "near", "empty"}
+	classes := []string{"correct", "correct", "correct", "wrong", "near", "near", "alt", "empty"}
 	if allowAbsent {
 		classes = append(classes, "absent")
 	}
 	f := Field{Class: rapid.SampledFrom(classes).Draw(t, label)}
 	if f.Class == "near" {
 		f.Kind = rapid.SampledFrom(nearKinds).Draw(t, label+"kind")
+	}
+	if f.Class == "alt" {
+		f.Kind = rapid.SampledFrom(altKinds).Draw(t, label+"alt")
 	}
 	return f
 }
@@ -390,6 +402,9 @@ func enumSingleFault(_ string, emit func(Case)) {
 	for _, k := range nearKinds {
 		fields = append(fields, Field{Class: "near", Kind: k})
 	}
+	for _, k := range altKinds {
+		fields = append(fields, Field{Class: "alt", Kind: k})
+	}
 	ok := Field{Class: "correct"}
 	base := func() Case {
 		return Case{RespIssuer: ok, AsrtIssuer: ok, Recipients: []Field{ok}, Audiences: []Field{ok}, Destination: ok, Status: "success", AsrtSigned: true, ReceivedAt: "acs", Entry: "xml"}
@@ -443,7 +458,7 @@ func enumSingleFault(_ string, emit func(Case)) {
 
 var prop = &pbt.Prop[Case]{
 	ID: "C03",
-	Rule: "cases: a genuinely IdP-signed response whose Response Issuer, Assertion Issuer, each confirmation Recipient, 0-3 audiences, Destination and StatusCode are each drawn from {correct, wrong, near-miss (11 kinds), empty, absent}, " +
+	Rule: "cases: a genuinely IdP-signed response whose Response Issuer, Assertion Issuer, each confirmation Recipient, 0-3 audiences, Destination and StatusCode are each drawn from {correct, wrong, near-miss (11 kinds), another identifier of the same deployment (SP metadata URL / entity ID / ACS / SLO, IdP SSO URL / entity ID), empty, absent}, " +
 		"crossed with signed/unsigned Response, entity-ID set/unset, custom audience validator {none, accept, reject, own value}, received-at URL {ACS, other, ACS+query} and entry point {XML, POST, artifact}; " +
 		"exhaustive single-fault enumeration of every class and near-miss kind in every slot plus rapid full combinations. " +
 		"oracle: executable restatement of the property, three-valued (mixed audiences, zero confirmations, Destination=\"\" on unsigned responses, signed responses inside artifact responses: don't-care). " +
